@@ -146,6 +146,58 @@ func newRouter(ops optSet, routes []routeSpec) (*fox.Router, error) {
 	return r, nil
 }
 
+// ---------------------------------------------------------------- router states
+
+// rstate: what the LIVE routing tree looks like when the writer parks. The empty router is a
+// boundary of its own (fresh; emptied route by route; emptied by Truncate).
+type rstate struct {
+	name  string
+	build func(ops optSet, rnd *hx.Rand) (*fox.Router, error)
+}
+
+var rstates = []rstate{
+	{"many-routes", func(ops optSet, rnd *hx.Rand) (*fox.Router, error) { return newRouter(ops, baseRoutes(rnd)) }},
+	{"empty-fresh", func(ops optSet, rnd *hx.Rand) (*fox.Router, error) { return newRouter(ops, nil) }},
+	{"empty-after-deleting-every-route", func(ops optSet, rnd *hx.Rand) (*fox.Router, error) {
+		routes := baseRoutes(rnd)
+		r, err := newRouter(ops, routes)
+		if err != nil {
+			return nil, err
+		}
+		for _, rt := range routes {
+			_, _ = r.Delete(rt.method, rt.pattern)
+		}
+		if r.Len() != 0 {
+			return nil, fmt.Errorf("router not empty after deleting every route: %d left", r.Len())
+		}
+		return r, nil
+	}},
+	{"empty-after-Truncate", func(ops optSet, rnd *hx.Rand) (*fox.Router, error) {
+		r, err := newRouter(ops, baseRoutes(rnd))
+		if err != nil {
+			return nil, err
+		}
+		if err := r.Updates(func(txn *fox.Txn) error { return txn.Truncate() }); err != nil {
+			return nil, err
+		}
+		if r.Len() != 0 {
+			return nil, fmt.Errorf("router not empty after Truncate: %d left", r.Len())
+		}
+		return r, nil
+	}},
+	{"single-route", func(ops optSet, rnd *hx.Rand) (*fox.Router, error) {
+		return newRouter(ops, []routeSpec{hx.Pick(rnd, []routeSpec{{"GET", "/foo/bar"}, {"POST", "/foo/bar"}, {"GET", "/tsr/"}, {"GET", "/files/*{path}"}, {"GET", "/"}})})
+	}},
+	{"one-method-left-after-Truncate", func(ops optSet, rnd *hx.Rand) (*fox.Router, error) {
+		r, err := newRouter(ops, baseRoutes(rnd))
+		if err != nil {
+			return nil, err
+		}
+		err = r.Updates(func(txn *fox.Txn) error { return txn.Truncate("GET", "POST", "PATCH", "DELETE") })
+		return r, err
+	}},
+}
+
 // ---------------------------------------------------------------- read entry points
 
 type readEntry struct {
@@ -214,6 +266,11 @@ func readEntries() []readEntry {
 		{"ServeHTTP/tsr-add-slash", serve("GET", "/tsr", "")},
 		{"ServeHTTP/tsr-post", serve("POST", "/foo/bar/", "")},
 		{"ServeHTTP/404", serve("GET", "/nope/nothing", "")},
+		{"ServeHTTP/root", serve("GET", "/", "")},
+		{"ServeHTTP/HEAD", serve("HEAD", "/foo/bar", "")},
+		{"ServeHTTP/CONNECT-404", serve("CONNECT", "/foo/bar/", "")},
+		{"ServeHTTP/unclean-path", serve("GET", "/foo//bar/../bar/", "")},
+		{"ServeHTTP/404-other-host", serve("GET", "/nothing/here", "other.example.org")},
 		{"ServeHTTP/405", serve("PATCH", "/foo/bar", "")},
 		{"ServeHTTP/OPTIONS", serve("OPTIONS", "/foo/bar", "")},
 		{"ServeHTTP/OPTIONS*", func(r *fox.Router) string {
@@ -408,6 +465,7 @@ type violation struct {
 	Kind   string `json:"kind"`
 	Entry  string `json:"entry"`
 	Stage  string `json:"stage"`
+	State  string `json:"router_state"`
 	Opts   string `json:"options"`
 	Detail string `json:"detail"`
 }
@@ -443,11 +501,10 @@ func within(d time.Duration, f func()) (time.Duration, bool, any) {
 	}
 }
 
-func runSetup(ops optSet, st stage, rnd *hx.Rand, rs *result, round int) {
-	routes := baseRoutes(rnd)
-	r, err := newRouter(ops, routes)
+func runSetup(ops optSet, st stage, rst rstate, rnd *hx.Rand, rs *result, round int) {
+	r, err := rst.build(ops, rnd)
 	if err != nil {
-		rs.violate(violation{"harness-error", "-", st.name, ops.name, err.Error()})
+		rs.violate(violation{"harness-error", "-", st.name, rst.name, ops.name, err.Error()})
 		return
 	}
 	parked := make(chan struct{})
@@ -461,7 +518,7 @@ func runSetup(ops optSet, st stage, rnd *hx.Rand, rs *result, round int) {
 	select {
 	case <-parked:
 	case <-time.After(timeout):
-		rs.violate(violation{"harness-error", "-", st.name, ops.name, "the writer did not reach its parking point"})
+		rs.violate(violation{"harness-error", "-", st.name, rst.name, ops.name, "the writer did not reach its parking point"})
 		return
 	}
 
@@ -499,18 +556,18 @@ func runSetup(ops optSet, st stage, rnd *hx.Rand, rs *result, round int) {
 			defer wg.Done()
 			var obs string
 			d, ok, p := within(timeout, func() { obs = e.run(r) })
-			key := fmt.Sprintf("opts=%s stage=%s read=%s", ops.name, st.name, e.name)
+			key := fmt.Sprintf("opts=%s router=%s stage=%s read=%s", ops.name, rst.name, st.name, e.name)
 			rs.mu.Lock()
 			rs.evals++
 			switch {
 			case !ok:
 				rs.hangs[e.name]++
-				rs.violations = append(rs.violations, violation{"read-did-not-complete", e.name, st.name, ops.name,
-					fmt.Sprintf("%s did not return within %v while a write transaction was parked at stage %q (options %s)", e.name, timeout, st.name, ops.name)})
+				rs.violations = append(rs.violations, violation{"read-did-not-complete", e.name, st.name, rst.name, ops.name,
+					fmt.Sprintf("%s did not return within %v while a write transaction was parked at stage %q on a router in state %q (options %s)", e.name, timeout, st.name, rst.name, ops.name)})
 			case p != nil:
-				rs.violations = append(rs.violations, violation{"read-panicked", e.name, st.name, ops.name, fmt.Sprint(p)})
+				rs.violations = append(rs.violations, violation{"read-panicked", e.name, st.name, rst.name, ops.name, fmt.Sprint(p)})
 			case strings.HasPrefix(obs, "UNEXPECTED"):
-				rs.violations = append(rs.violations, violation{"read-wrong-result", e.name, st.name, ops.name, obs})
+				rs.violations = append(rs.violations, violation{"read-wrong-result", e.name, st.name, rst.name, ops.name, obs})
 			default:
 				rs.distinct[key] = true
 				rs.dist["read:"+e.name]++
@@ -532,7 +589,7 @@ func runSetup(ops optSet, st stage, rnd *hx.Rand, rs *result, round int) {
 	rs.evals++
 	rs.mu.Unlock()
 	if acquired.Load() {
-		rs.violate(violation{"second-writer-not-blocked", "Txn(true)", st.name, ops.name, "a second write transaction was opened while the first one was still open"})
+		rs.violate(violation{"second-writer-not-blocked", "Txn(true)", st.name, rst.name, ops.name, "a second write transaction was opened while the first one was still open"})
 	} else {
 		rs.mu.Lock()
 		rs.dist["second-writer-blocked-while-first-parked"]++
@@ -540,7 +597,7 @@ func runSetup(ops optSet, st stage, rnd *hx.Rand, rs *result, round int) {
 	}
 	select {
 	case <-ended:
-		rs.violate(violation{"harness-error", "-", st.name, ops.name, "the parked writer ended before being released"})
+		rs.violate(violation{"harness-error", "-", st.name, rst.name, ops.name, "the parked writer ended before being released"})
 	default:
 	}
 
@@ -549,7 +606,7 @@ func runSetup(ops optSet, st stage, rnd *hx.Rand, rs *result, round int) {
 	select {
 	case <-ended:
 	case <-time.After(timeout):
-		rs.violate(violation{"writer-did-not-end", "-", st.name, ops.name, "the released writer did not finish"})
+		rs.violate(violation{"writer-did-not-end", "-", st.name, rst.name, ops.name, "the released writer did not finish"})
 		return
 	}
 	rs.mu.Lock()
@@ -561,7 +618,7 @@ func runSetup(ops optSet, st stage, rnd *hx.Rand, rs *result, round int) {
 		rs.dist["second-writer-proceeds-after-first-ends"]++
 		rs.mu.Unlock()
 	case <-time.After(timeout):
-		rs.violate(violation{"writer-blocked-by-non-writer", "Txn(true)", st.name, ops.name,
+		rs.violate(violation{"writer-blocked-by-non-writer", "Txn(true)", st.name, rst.name, ops.name,
 			"no write transaction is open any more, yet a writer is still waiting (something other than a writer holds the writer lock)"})
 		return
 	}
@@ -582,7 +639,7 @@ func runSetup(ops optSet, st stage, rnd *hx.Rand, rs *result, round int) {
 	rs.evals++
 	rs.mu.Unlock()
 	if !ok {
-		rs.violate(violation{"writer-blocked-by-readers", "Handle", st.name, ops.name,
+		rs.violate(violation{"writer-blocked-by-readers", "Handle", st.name, rst.name, ops.name,
 			"a write did not complete while only readers (open read-only txn, half-consumed iterator, unclosed Lookup context) were outstanding"})
 	} else {
 		rs.mu.Lock()
@@ -617,8 +674,8 @@ func iterPull(seq func(yield func(string, *fox.Route) bool)) (next func() bool, 
 }
 
 // hammer: many readers run continuously while a writer is parked; every one of them must keep making progress.
-func hammer(ops optSet, st stage, rnd *hx.Rand, rs *result, dur time.Duration) {
-	r, err := newRouter(ops, baseRoutes(rnd))
+func hammer(ops optSet, st stage, rst rstate, rnd *hx.Rand, rs *result, dur time.Duration) {
+	r, err := rst.build(ops, rnd)
 	if err != nil {
 		return
 	}
@@ -628,7 +685,7 @@ func hammer(ops optSet, st stage, rnd *hx.Rand, rs *result, dur time.Duration) {
 	select {
 	case <-parked:
 	case <-time.After(timeout):
-		rs.violate(violation{"harness-error", "-", st.name, ops.name, "the writer did not reach its parking point (hammer)"})
+		rs.violate(violation{"harness-error", "-", st.name, rst.name, ops.name, "the writer did not reach its parking point (hammer)"})
 		return
 	}
 	entries := readEntries()
@@ -661,7 +718,7 @@ func hammer(ops optSet, st stage, rnd *hx.Rand, rs *result, dur time.Duration) {
 	rs.dist["hammer-reads"] += int(total)
 	rs.mu.Unlock()
 	if !ok {
-		rs.violate(violation{"read-did-not-complete", "hammer(random read entry points)", st.name, ops.name,
+		rs.violate(violation{"read-did-not-complete", "hammer(random read entry points)", st.name, rst.name, ops.name,
 			fmt.Sprintf("%d concurrent readers did not all finish within %v of their deadline while a writer was parked", n, timeout)})
 	}
 	close(release)
@@ -697,14 +754,16 @@ func main() {
 	for round := 0; round < rounds; round++ {
 		for _, ops := range optSets {
 			for _, st := range stages {
-				wg.Add(1)
-				lr := rnd.Fork()
-				sem <- struct{}{}
-				go func() {
-					defer wg.Done()
-					defer func() { <-sem }()
-					runSetup(ops, st, lr, rs, round)
-				}()
+				for _, rst := range rstates {
+					wg.Add(1)
+					lr := rnd.Fork()
+					sem <- struct{}{}
+					go func() {
+						defer wg.Done()
+						defer func() { <-sem }()
+						runSetup(ops, st, rst, lr, rs, round)
+					}()
+				}
 			}
 		}
 	}
@@ -718,9 +777,10 @@ func main() {
 		for i, ops := range optSets {
 			hw.Add(1)
 			st, lr := stages[(i+int(rnd.Intn(len(stages))))%len(stages)], rnd.Fork()
+			rst := rstates[(i+int(rnd.Intn(len(rstates))))%len(rstates)]
 			go func() {
 				defer hw.Done()
-				hammer(ops, st, lr, rs, hamDur)
+				hammer(ops, st, rst, lr, rs, hamDur)
 			}()
 		}
 		hw.Wait()
@@ -728,18 +788,18 @@ func main() {
 
 	sort.Slice(rs.violations, func(i, j int) bool {
 		a, b := rs.violations[i], rs.violations[j]
-		return a.Kind+a.Entry+a.Stage+a.Opts < b.Kind+b.Entry+b.Stage+b.Opts
+		return a.Kind+a.Entry+a.Stage+a.State+a.Opts < b.Kind+b.Entry+b.Stage+b.State+b.Opts
 	})
 	st := &hx.Stats{
 		Evaluations:        rs.evals,
 		DistinctNontrivial: len(rs.distinct),
-		Rule: "experiment = one call of a read entry point on the real router while a write transaction is parked (option set x writer stage x read entry point, routes and writer actions drawn from VERIF_SEED), " +
+		Rule: "experiment = one call of a read entry point on the real router while a write transaction is parked (option set x router state [many routes / empty fresh / emptied by Delete / emptied by Truncate / single route / one method left] x writer stage x read entry point, routes and writer actions drawn from VERIF_SEED), " +
 			"plus per setup: second writer stays blocked / proceeds after the first ends / a writer proceeds with unfinished readers, plus a hammer of concurrent random reads; " +
-			"distinct non-trivial = distinct (option set, stage, read entry point) triples whose read completed while the writer was verifiably still parked",
+			"distinct non-trivial = distinct (option set, router state, stage, read entry point) tuples whose read completed while the writer was verifiably still parked",
 		Distribution: rs.dist,
 		Samples:      rs.samples,
 		Exhaustive:   false,
-		Extra: map[string]any{"option_sets": len(optSets), "stages": len(stages), "read_entry_points": len(readEntries()),
+		Extra: map[string]any{"option_sets": len(optSets), "router_states": len(rstates), "stages": len(stages), "read_entry_points": len(readEntries()),
 			"timeout_ms": timeout.Milliseconds(), "rounds": rounds, "harness_wall_ms": time.Since(t0).Milliseconds(), "violations": len(rs.violations)},
 	}
 	hx.Fatal(st.Write(out))
